@@ -3,7 +3,7 @@
     a dot-led proper suffix of it). *)
 From Qv Require Import Common.Bytes Gen.GenControl Model.FindDomain Spec.ControlSpec.
 
-Ltac consts := unfold FD_LF, FD_COMMENT, FD_BLANK_A, FD_BLANK_B, FD_DOT in *.
+Ltac consts := unfold FD_LF, FD_COMMENT, FD_BLANK_A, FD_BLANK_B, FD_DOT, MD_DOT in *.
 
 (** ------------------------------------------------------------ list helpers *)
 Lemma find_split (c : N) (l : bytes) :
@@ -308,3 +308,40 @@ Qed.
 Lemma finddomain_orig_overread :
   finddomain_orig [101; 120; 97; 109; 112; 108; 101; 46; 111; 114; 103; 10]%N [120; 46; 111; 114; 103]%N = Crash 4.
 Proof. vm_compute. reflexivity. Qed.
+
+(** ------------------------------------------------------------ matchdomain *)
+Lemma strcasecmp_eq_spec : forall a b, strcasecmp_eq a b = bytes_eqb (lower a) (lower b).
+Proof.
+  induction a as [|x a IH]; intros [|y b]; cbn [strcasecmp_eq lower map bytes_eqb]; try reflexivity.
+  rewrite IH. destruct (N.eqb (to_lower x) (to_lower y)); reflexivity.
+Qed.
+
+Theorem matchdomain_correct (domain expr : bytes) :
+  matchdomain domain expr = expr_matchb (cstr domain) (cstr expr).
+Proof.
+  unfold matchdomain, expr_matchb. set (dom := cstr domain). set (ex := cstr expr). consts.
+  assert (Hd : N.eqb (hd 0%N ex) 46 = dot_led ex) by (destruct ex; reflexivity). rewrite Hd.
+  rewrite !strcasecmp_eq_spec.
+  destruct (Nat.ltb (length dom) (length ex)) eqn:El.
+  - apply Nat.ltb_lt in El. destruct (dot_led ex).
+    + replace (Nat.leb (length ex) (length dom)) with false by (symmetry; apply Nat.leb_gt; lia). reflexivity.
+    + symmetry. apply bytes_eqb_length. rewrite !lower_length. lia.
+  - apply Nat.ltb_ge in El. destruct (dot_led ex).
+    + replace (Nat.leb (length ex) (length dom)) with true by (symmetry; apply Nat.leb_le; lia). reflexivity.
+    + destruct (Nat.eqb (length ex) (length dom)) eqn:Ee; [reflexivity|].
+      apply Nat.eqb_neq in Ee. symmetry. apply bytes_eqb_length. rewrite !lower_length. lia.
+Qed.
+
+Lemma expr_matchb_iff (name e : bytes) : expr_matchb name e = true <-> expr_matches e name.
+Proof.
+  unfold expr_matchb, expr_matches. destruct (dot_led e).
+  - rewrite andb_true_iff, Nat.leb_le, bytes_eqb_eq. split.
+    + intros [Hl He].
+      exists (firstn (length name - length e) name), (skipn (length name - length e) name).
+      split; [symmetry; apply firstn_skipn|assumption].
+    + intros (pre & rest & En & Er).
+      assert (Hlen : length rest = length e) by (rewrite <- (lower_length rest), Er; apply lower_length).
+      subst name. rewrite app_length, Hlen. split; [lia|].
+      rewrite Nat.add_sub, skipn_app, skipn_all, Nat.sub_diag. exact Er.
+  - apply bytes_eqb_eq.
+Qed.
